@@ -77,7 +77,6 @@ def evaluate(sid, thorough=False, all_props=False):
     finally:
         sh(f"git -C /repo worktree remove --force {wt}")
         shutil.rmtree(wt, ignore_errors=True)
-        shutil.rmtree(os.path.join(HERE, "replays"), ignore_errors=True)
 
 
 def main():
